@@ -20,8 +20,11 @@ import (
 	"errors"
 	"fmt"
 	"hash/fnv"
+	"runtime"
 	"sort"
+	"strings"
 	"sync"
+	"sync/atomic"
 	"time"
 
 	"github.com/WuKongIM/WuKongIM/pkg/slot/multiraft"
@@ -285,8 +288,9 @@ type c12SM struct {
 	cur     uint64 // incarnation cursor: last index covered in this incarnation
 	curSet  bool   // false: non-durable SM after an unclean stop, resume point not yet known
 	startP  uint64 // disk.p when the incarnation started
-	opening bool   // OpenSlot/BootstrapSlot in progress (restore-at-open allowed to rewind)
-	fresh   bool   // nothing applied or restored yet in this incarnation
+	gate    atomic.Pointer[c12ApplyGate]
+	opening bool // OpenSlot/BootstrapSlot in progress (restore-at-open allowed to rewind)
+	fresh   bool // nothing applied or restored yet in this incarnation
 	hist    []string
 }
 
@@ -310,7 +314,54 @@ func (s *c12SM) Apply(ctx context.Context, cmd multiraft.Command) ([]byte, error
 	return res[0], nil
 }
 
+// c12ApplyGate blocks the next Apply of one replica until the director releases it.
+type c12ApplyGate struct {
+	entered chan struct{}
+	release chan struct{}
+	once    sync.Once
+}
+
+// applyPath classifies, from the call stack, how the runtime reached the state
+// machine. Evidence only (proves the backpressure fallback is exercised).
+func c12ApplyPath() string {
+	var pcs [24]uintptr
+	n := runtime.Callers(3, pcs[:])
+	frames := runtime.CallersFrames(pcs[:n])
+	sync_, fallback := false, false
+	for {
+		f, more := frames.Next()
+		switch {
+		case strings.HasSuffix(f.Function, ".runApplyTask"):
+			return "pipeline"
+		case strings.HasSuffix(f.Function, ".processReadySynchronously"):
+			sync_ = true
+		case strings.HasSuffix(f.Function, ".processReadyAsyncNormal"):
+			fallback = true
+		}
+		if !more {
+			break
+		}
+	}
+	switch {
+	case sync_ && fallback:
+		return "sync_fallback_backpressure"
+	case sync_:
+		return "sync_required"
+	}
+	return "other"
+}
+
 func (s *c12SM) ApplyBatch(_ context.Context, cmds []multiraft.Command) ([][]byte, error) {
+	path := c12ApplyPath()
+	s.mon.r.Count("apply.calls."+path, 1)
+	if b := s.inc.obs.backlog(multiraft.SlotID(s.slot)); b > 1 {
+		s.mon.r.Count("apply.calls_with_queued_backlog", 1)
+	}
+	if g := s.gate.Load(); g != nil {
+		g.once.Do(func() { close(g.entered) })
+		<-g.release
+		s.mon.r.Count("apply.gated", 1)
+	}
 	if d := s.delay(); d > 0 {
 		time.Sleep(d)
 	}
